@@ -50,6 +50,14 @@ def universe_tla(abs_blocks):
     return tla(u)
 
 
+def _merkle_ok(block):
+    """The header's commitment against an independent computation over the ids of the transactions the block holds, in their order."""
+    try:
+        return block.header.summary.merkle_root_hash == indep.merkle_root([indep.txid(t) for t in block.transactions])
+    except Exception:
+        return False
+
+
 class StoreRun:
     """One real BlockStore on a scratch file whose genesis row is the harness genesis."""
 
@@ -172,7 +180,7 @@ class StoreRun:
                     indep.blockid(b) == b.hash()
                 ab = abstract_block(self.w, b)
                 ev["read"].append({"id": ab["id"], "parent": ab["parent"], "height": ab["height"],
-                                   "txids": [t["id"] for t in ab["txs"]], "bytes_equal": same})
+                                   "txids": [t["id"] for t in ab["txs"]], "bytes_equal": same, "merkle_ok": _merkle_ok(b)})
             cs = self.rebuild(blocks)
             mem_ids = set(self.written.keys())
             eq = set(cs.block_by_hash.keys()) == mem_ids
@@ -256,7 +264,8 @@ class StoreRun:
             same = wb is not None and indep.enc_block(b) == indep.enc_block(wb) and \
                 [t.hash() for t in b.transactions] == [indep.txid(t) for t in wb.transactions] and indep.blockid(b) == b.hash()
             ab = abstract_block(self.w, b)
-            ev["read"].append({"id": ab["id"], "parent": ab["parent"], "height": ab["height"], "txids": [t["id"] for t in ab["txs"]], "bytes_equal": same})
+            ev["read"].append({"id": ab["id"], "parent": ab["parent"], "height": ab["height"], "txids": [t["id"] for t in ab["txs"]], "bytes_equal": same,
+                               "merkle_ok": _merkle_ok(b)})
         try:
             cs = self.rebuild(blocks)
         except Exception as e:
